@@ -1,22 +1,49 @@
 """C11 — check_schema accepts exactly what the draft's bundled metaschema allows.
 
-Candidates: every JSON value of the hostile universe W, every {keyword: w},
-sibling products the metaschemas constrain, each placed at every subschema
-position; the four metaschemas themselves.  Oracle: the reference evaluator
-applied to the metaschema *file* of the draft.
+Part E (candidates): every JSON value of the hostile universe W, every
+{keyword: w}, sibling products the metaschemas constrain, each placed at every
+subschema position; the non-finite numbers json.loads produces (1e999, -1e999,
+NaN) wherever a keyword value or an element of one can stand; ordered tuples
+over an alphabet of equal-but-differently-written entries for every keyword
+whose metaschema entry is an array (draft 3 type / disallow unions, type
+arrays, required, enum, dependencies); "type confusions" of every valid keyword
+value (a string vs. the list of its characters, x vs. [x], int vs. float vs.
+bool vs. numeral, object vs. list of pairs ...); the four metaschemas
+themselves.  Oracle: the reference evaluator applied to the metaschema *file*
+of the draft.
+
+Part H (environment histories): all sequences, up to a depth, of registrations
+of further dialects (validators.create / extend with a version, the validates
+decorator) that re-use a bundled metaschema id — fewer keywords, altered
+metaschema content, a type checker that redefines integer / number / string —
+or use another id; after every step the check_schema-vs-metaschema
+differential is re-run on a probe set for all four draft classes.  The
+registries are snapshotted before and restored (and the restoration verified)
+after every history.
+
+Part T (threads): check_schema of two different draft classes in two real
+threads under the baton scheduler of mc/explore/threads.py, every schedule
+with at most two preemptions at call granularity; expected verdicts from the
+same oracle.
 """
+import copy
 import itertools
 import json
 import os
 
+import jsonschema
 from jsonschema import exceptions
+from jsonschema import validators as V
 
-from mc.enum import jsonvals
+from mc.enum import jsonvals, schemas
+from mc.explore import threads
 from mc.props import _e1
-from mc.ref import spec
+from mc.ref import nonfinite, spec
 
 ID = "C11"
 LEVEL = "exploration"
+
+PKG = os.path.dirname(os.path.abspath(jsonschema.__file__))
 
 KW = ["$ref", "additionalItems", "additionalProperties", "allOf", "anyOf", "const", "contains", "dependencies",
       "disallow", "divisibleBy", "enum", "exclusiveMaximum", "exclusiveMinimum", "extends", "format", "if", "then",
@@ -53,6 +80,7 @@ WRAP = [
     ("properties/x/items", lambda s: {"properties": {"x": {"items": s}}}),
     ("allOf/0/not", lambda s: {"allOf": [{"not": s}]}),
 ]
+WRAPD = dict(WRAP)
 
 _meta = {}
 
@@ -65,6 +93,7 @@ def meta(d, repo):
 
 
 def base_candidates():
+    """The finite hostile family (also used by C04; keep its meaning)."""
     c = list(W)
     c += [{k: w} for k in KW for w in W]
     for a, b in (("minimum", "exclusiveMinimum"), ("maximum", "exclusiveMaximum")):
@@ -76,54 +105,554 @@ def base_candidates():
     return c
 
 
+# ---- family "nonfinite": what json.loads makes of 1e999 / -1e999 / NaN ---------------------------
+def _j(text):
+    return json.loads(text)
+
+
+def nonfinite_values():
+    """Fresh objects, exactly as a parsed document has them (two NaN literals are two float objects)."""
+    return [_j(t) for t in (
+        "1e999", "-1e999", "NaN", "[1e999]", "[-1e999]", "[NaN]", "[1e999, 1e999]", "[1e999, -1e999]", "[NaN, NaN]",
+        "[\"a\", 1e999]", "[1, NaN]", "{\"a\": 1e999}", "{\"a\": -1e999}", "{\"a\": NaN}", "{\"a\": [1e999]}",
+        "[{\"minLength\": 1e999}]", "{\"a\": {\"maxItems\": -1e999}}", "{\"a\": {\"minimum\": NaN}}")]
+
+
+def nonfinite_candidates():
+    c = nonfinite_values()
+    c += [{k: w} for k in KW for w in nonfinite_values()]
+    for a, b in (("minimum", "exclusiveMinimum"), ("maximum", "exclusiveMaximum")):
+        for w in nonfinite_values()[:3]:
+            c += [{a: w, b: True}, {b: False, a: w}, {a: w, b: 1}, {a: 1, b: w}, {b: w, a: w}]
+    c += [{"type": ["string", w]} for w in nonfinite_values()[:3]]
+    c += [{"required": ["a", w]} for w in nonfinite_values()[:3]]
+    c += [{"required": [w, w]} for w in nonfinite_values()[:3]]
+    c += [{"enum": [w, "a", w]} for w in nonfinite_values()[:3]]
+    return c
+
+
+# ---- family "unions": arrays whose entries must be unique -----------------------------------------
+# equal-but-differently-written entries (member order, 1 / 1.0), entries that differ only in bool / number,
+# type names, and objects whose repr sorts between two equal ones
+UE = ["string", "null", "any", "integer",
+      {"minimum": 1}, {"minimum": 1.0}, {"minimum": 1.5}, {"minimum": 0},
+      {"type": "string", "maxLength": 3}, {"maxLength": 3, "type": "string"},
+      {"enum": [1, 2]}, {"enum": [1.0, 2]}, {"enum": [1, 3]}, {"enum": [True, 2]},
+      {"a": 1, "b": [2]}, {"b": [2.0], "a": 1.0}]
+UE4 = ["string", "null", {"minimum": 1}, {"minimum": 1.0}, {"minimum": 1.5}, {"type": "string", "maxLength": 3},
+       {"maxLength": 3, "type": "string"}, {"minimum": 0}]
+UKW = ["type", "disallow", "required", "enum", "extends", "dependencies/a"]
+
+
+def union_candidates(thorough):
+    tuples = [list(t) for n in (2, 3) for t in itertools.product(UE, repeat=n)]
+    if thorough:
+        tuples += [list(t) for t in itertools.product(UE4, repeat=4)]
+    out = []
+    for k in UKW:
+        for t in tuples:
+            if k == "dependencies/a":
+                out.append(("", {"dependencies": {"a": t}}))
+            else:
+                out.append(("", {k: t}))
+            if k in ("type", "disallow"):
+                out.append(("properties/x", {k: t}))
+                if thorough:
+                    out.append(("extends/0", {k: t}))
+    return out
+
+
+# ---- family "confusion": type confusions of valid keyword values ------------------------------------
+def confusions(v, depth=1):
+    """Values a sloppy producer (or a sloppy comparison) confuses with v."""
+    out = []
+    if isinstance(v, str):
+        out += [list(v), [v], {v: {}}, {v: v}]
+        if v.isdigit():
+            out.append(int(v))
+    elif v is True or v is False:
+        out += [int(v), float(v), "true" if v else "false", [v]]
+    elif isinstance(v, int):
+        out += [float(v), str(v), [v]]
+        if v in (0, 1):
+            out.append(bool(v))
+    elif isinstance(v, float):
+        out += [str(v), [v]]
+        if v == int(v):
+            out += [int(v)]
+    elif v is None:
+        out += ["null", 0, False, [None]]
+    elif isinstance(v, list):
+        out += [[v], {str(i): e for i, e in enumerate(v)}]
+        if len(v) == 1:
+            out.append(v[0])
+        if v and all(isinstance(e, str) for e in v):
+            out += [{e: {} for e in v}, "".join(v), ",".join(v)]
+        out.append(v + v[:1] if v else [[]])
+        if depth:
+            for i, e in enumerate(v):
+                for m in confusions(e, depth - 1):
+                    out.append(v[:i] + [m] + v[i + 1:])
+    elif isinstance(v, dict):
+        out += [[[k, e] for k, e in v.items()], list(v), list(v.values()), [v]]
+        if depth:
+            for k, e in v.items():
+                for m in confusions(e, depth - 1):
+                    out.append(dict(v, **{k: m}))
+    return out
+
+
+def valid_values():
+    """(keyword, value) pairs valid in at least one draft: the singles of the schema grammar of every draft."""
+    seen, out = set(), []
+    extra = [("$ref", "#"), ("$ref", "#/definitions/a"), ("id", "http://x.invalid/a"), ("$id", "http://x.invalid/a"),
+             ("$schema", "http://json-schema.org/draft-04/schema#"), ("definitions", {"a": {"type": "integer"}}),
+             ("description", "x"), ("examples", [0]), ("$comment", "x"), ("readOnly", True),
+             ("contentEncoding", "base64"), ("required", True), ("required", False)]
+    for d in _e1.DRAFTS:
+        for k, v in schemas.singles(d, "quick") + extra:
+            t = json.dumps([k, v])
+            if t not in seen:
+                seen.add(t)
+                out.append((k, v))
+    return out
+
+
+def confusion_candidates(thorough):
+    out = []
+    for k, v in valid_values():
+        for m in confusions(v, 2 if thorough else 1):
+            out.append({k: m})
+    return out
+
+
+CONF_WRAPS = ["", "properties/x", "items/0", "anyOf/1"]
+CONF_WRAPS_T = CONF_WRAPS + ["not", "dependencies/x", "extends/0", "type/0", "additionalProperties", "definitions/x"]
+
 _cands = None
 
 
 def candidates(ctx):
+    """[(family, wrap name, candidate, inner candidate or None)], de-duplicated by JSON text."""
     global _cands
     if _cands is None:
-        base = base_candidates()
-        wraps = WRAP if ctx.thorough else WRAP[:16]
         out = []
         seen = set()
+
+        def add(fam, wname, inner):
+            s = WRAPD[wname](inner)
+            t = json.dumps(s)
+            if t not in seen:
+                seen.add(t)
+                out.append((fam, wname, s, inner if wname else None))
+
+        base = base_candidates()
+        wraps = WRAP if ctx.thorough else WRAP[:16]
         for wname, wr in wraps:
             for c in base:
-                s = wr(c)
-                t = json.dumps(s)
-                if t not in seen:
-                    seen.add(t)
-                    out.append(s)
+                add("base", wname, c)
         if ctx.thorough:
             # ordered pairs of keyword candidates over a reduced W at the top level
             small = [None, True, 0, -1, 1.5, "", "a", [], ["a"], [{}], {}, {"a": {}}, {"a": []}]
             for (k1, k2) in itertools.permutations(KW[:42], 2):
                 for w1, w2 in ((w1, w2) for w1 in small[:6] for w2 in small[6:]):
-                    s = {k1: w1, k2: w2}
-                    t = json.dumps(s)
-                    if t not in seen:
-                        seen.add(t)
-                        out.append(s)
+                    add("base", "", {k1: w1, k2: w2})
+        for wname, wr in wraps:
+            for c in nonfinite_candidates():      # fresh float objects per position, as parsed documents have them
+                add("nonfinite", wname, c)
+        for wname, c in union_candidates(ctx.thorough):
+            add("unions", wname, c)
+        conf = confusion_candidates(ctx.thorough)
+        for wname in (CONF_WRAPS_T if ctx.thorough else CONF_WRAPS):
+            for c in conf:
+                add("confusion", wname, c)
         _cands = out
     return _cands
 
 
+# ---- part H: registration histories ----------------------------------------------------------------
+OP_KINDS = ["few", "strict", "loose", "intstr", "anystr", "decor", "otherid", "copy"]
+OPS = [(k, d) for d in _e1.DRAFTS for k in OP_KINDS]
+
+
+def _only_enum(validator, enums, instance, schema):
+    if instance not in enums:
+        yield exceptions.ValidationError("%r not allowed" % (instance,))
+
+
+def _idkey(D):
+    return "id" if "id" in D.META_SCHEMA else "$id"
+
+
+def apply_op(kind, d):
+    """Register one further dialect; returns the new class."""
+    D = _e1.CLS[d]
+    name = "c11 %s d%d" % (kind, d)
+    if kind == "few":          # same metaschema (same id), a one-keyword table
+        return V.create(meta_schema=D.META_SCHEMA, validators={"enum": _only_enum}, version=name, id_of=D.ID_OF)
+    if kind == "strict":       # same id, altered content: no unknown keywords
+        return V.create(meta_schema=dict(D.META_SCHEMA, additionalProperties=False), validators=D.VALIDATORS,
+                        type_checker=D.TYPE_CHECKER, id_of=D.ID_OF, version=name)
+    if kind == "loose":        # the documented recipe: extend, then replace META_SCHEMA of the new class
+        X = V.extend(D, version=name)
+        X.META_SCHEMA = {_idkey(D): D.META_SCHEMA[_idkey(D)]}
+        return X
+    if kind == "intstr":       # numerals count as integers / numbers
+        base = D.TYPE_CHECKER
+
+        def is_integer(checker, instance):
+            return (isinstance(instance, str) and instance.isdigit()) or base.is_type(instance, "integer")
+
+        def is_number(checker, instance):
+            return (isinstance(instance, str) and instance.isdigit()) or base.is_type(instance, "number")
+        return V.extend(D, type_checker=base.redefine_many({"integer": is_integer, "number": is_number}), version=name)
+    if kind == "anystr":       # everything is a string; nothing is an object
+        tc = D.TYPE_CHECKER.redefine_many({"string": lambda checker, instance: True,
+                                           "object": lambda checker, instance: False})
+        return V.extend(D, type_checker=tc, version=name)
+    if kind == "decor":        # an unversioned class with an empty keyword table, registered through the decorator
+        X = V.create(meta_schema=D.META_SCHEMA, validators={}, id_of=D.ID_OF)
+        return V.validates(name)(X)
+    if kind == "otherid":      # a dialect with an id of its own (control)
+        return V.create(meta_schema={_idkey(D): "urn:x-c11:dialect-%d" % d, "additionalProperties": False},
+                        validators={"enum": _only_enum}, version=name, id_of=D.ID_OF)
+    if kind == "copy":         # plain extension: another class object with equal content
+        return V.extend(D, version=name)
+    raise KeyError(kind)
+
+
+def reg_snapshot():
+    return dict(V.validators), dict(V.meta_schemas.store)
+
+
+def reg_restore(snap):
+    V.validators.clear()
+    V.validators.update(snap[0])
+    V.meta_schemas.store.clear()
+    V.meta_schemas.store.update(snap[1])
+
+
+def reg_same(snap):
+    cur = reg_snapshot()
+    for a, b in zip(cur, snap):
+        if list(a) != list(b) or any(a[k] is not b[k] for k in a):
+            return False
+    return True
+
+
+def probes():
+    """The reduced candidate set of part H: every kind of dialect of the alphabet changes the verdict on some."""
+    out = [[], "a", 1, None, {}]
+    vals = ["3", 3, -1, "a", [], {}, {"a": 7}, True, {"a": {"x-note": 1}}]
+    kws = ["minLength", "maxItems", "multipleOf", "divisibleBy", "type", "properties", "items", "required", "enum",
+           "pattern", "additionalProperties", "dependencies", "x-note"]
+    for k in kws:
+        for w in vals:
+            out.append({k: w})
+    for k in ("minLength", "type", "properties", "pattern", "x-note", "required"):
+        for w in vals[:4]:
+            out.append({"properties": {"a": {k: w}}})
+    for k in ("minLength", "type", "x-note"):
+        for w in vals[:4]:
+            out.append({"items": [{k: w}]})
+            out.append({"extends": {k: w}, "not": {k: w}, "contains": {k: w}})
+    seen, res = set(), []
+    for c in out:
+        t = json.dumps(c)
+        if t not in seen:
+            seen.add(t)
+            res.append(c)
+    return res
+
+
+MINI = 12           # probes checked after a non-final step of a history (the check is itself an operation)
+_probes = None
+_probe_exp = {}
+_base_snap = None
+
+
+def probe_table(ctx):
+    global _probes
+    if _probes is None:
+        _probes = probes()
+        for d in _e1.DRAFTS:
+            M = meta(d, ctx.repo)
+            exp = []
+            for c in _probes:
+                try:
+                    exp.append(not spec.errs(d, M, c))
+                except spec.Unsupported:
+                    exp.append(None)
+            _probe_exp[d] = exp
+    return _probes
+
+
+def hist_depth(ctx):
+    return 3 if ctx.thorough else 2
+
+
+def histories(ctx):
+    for n in range(1, hist_depth(ctx) + 1):
+        for h in itertools.product(range(len(OPS)), repeat=n):
+            yield h
+
+
+def check_state(ctx, limit=None, only=None):
+    """check_schema vs. metaschema for the four draft classes in the current registry state.
+    -> (evaluations, [(draft, probe index or 'own-metaschema', got, expected)])"""
+    P = probe_table(ctx)
+    bad = []
+    ev = 0
+    for d in _e1.DRAFTS:
+        if only is not None and d != only[0]:
+            continue
+        cls = _e1.CLS[d]
+        M = meta(d, ctx.repo)
+        if only is None or only[1] == "own-metaschema":
+            ev += 1
+            got = outcome(cls, M)
+            if got is not True or cls.META_SCHEMA != M:
+                bad.append((d, "own-metaschema", got if got is not True else "META_SCHEMA attribute changed", True))
+        idx = range(len(P) if limit is None else min(limit, len(P))) if only is None else (
+            [only[1]] if only[1] != "own-metaschema" else [])
+        exp = _probe_exp[d]
+        for i in idx:
+            if exp[i] is None:
+                continue
+            ev += 1
+            got = outcome(cls, P[i])
+            if got != exp[i]:
+                bad.append((d, i, got, exp[i]))
+    return ev, bad
+
+
+def run_history(ctx, ops, only=None):
+    """Replays one history on the restored registries: mini check after every non-final step, full check after the
+    last.  -> (evaluations, mismatches of the final state, mismatches of earlier states)"""
+    ev = 0
+    early = []
+    reg_restore(_base_snap)
+    try:
+        for j, (kind, d) in enumerate(ops):
+            apply_op(kind, d)
+            last = j == len(ops) - 1
+            n, bad = check_state(ctx, None if last else MINI, only if last else None)
+            ev += n
+            if not last:
+                early += bad
+        return ev, bad, early
+    finally:
+        reg_restore(_base_snap)
+        if not reg_same(_base_snap):
+            raise RuntimeError("C11 harness: registries not restored after a history")
+
+
+def kind_of(got, exp):
+    if isinstance(got, str):
+        return "crash-" + got[4:] if got.startswith("EXC ") else got
+    return "accepts-invalid" if got else "rejects-valid"
+
+
+def shrink_history(ctx, ops, d, what):
+    """Greedy deletion of registrations while the same (class, probe) still disagrees."""
+    cur = list(ops)
+    changed = True
+    while changed and len(cur) > 1:
+        changed = False
+        for i in range(len(cur)):
+            cand = cur[:i] + cur[i + 1:]
+            _, bad, _ = run_history(ctx, cand, only=(d, what))
+            if bad:
+                cur, changed = cand, True
+                break
+    return cur
+
+
+def hist_violation(ctx, ops, bad_all):
+    """One violation per (history, class): the first disagreeing probe, shrunk."""
+    out = []
+    for d in _e1.DRAFTS:
+        bad = [b for b in bad_all if b[0] == d]
+        if not bad:
+            continue
+        _, what, got, exp = bad[0]
+        small = shrink_history(ctx, ops, d, what)
+        _, again, _ = run_history(ctx, small, only=(d, what))
+        if again:
+            got = again[0][2]
+        rel = sorted({"%s:%s" % (k, "same-draft" if dd == d else "other-draft") for k, dd in small})
+        sig = "C11|after-registering-dialects|%s|%s" % (
+            "own-metaschema-rejected" if what == "own-metaschema" else kind_of(got, exp), "+".join(rel))
+        cand = "metaschema-of-draft-%d" % d if what == "own-metaschema" else probe_table(ctx)[what]
+        out.append({"signature": sig, "size": 10 * len(small) + len(json.dumps(cand)) // 20,
+                    "case": {"part": "H", "history": [list(o) for o in small], "draft": d, "candidate": cand},
+                    "detail": {"check_schema": got, "reference": exp, "explored_history": [list(o) for o in ops],
+                               "probes_disagreeing_for_this_class_in_this_state": len(bad)}})
+    return out
+
+
+# ---- part T: check_schema of different drafts in concurrent threads ------------------------------------
+T_CANDS = {
+    # one accepted and one rejected candidate per draft, both judged through a $ref of the metaschema
+    3: [{"extends": {"minLength": 1}}, {"items": {"minLength": -1}}],
+    4: [{"minLength": 1}, {"items": {"minLength": -1}}],
+    6: [{"minLength": 1}, {"items": {"minLength": -1}}],
+    7: [{"minLength": 1, "required": ["a"]}, {"items": {"minLength": -1}}],
+}
+
+
+ACC, REJ, BOTH = (0,), (1,), (0, 1)
+
+
+def t_configs(tier):
+    """((draft, which of its two candidates), ...) per thread, granularity, preemption bound."""
+    if tier == "quick":
+        return [(((4, ACC), (7, REJ)), "call", 2), (((3, REJ), (6, ACC)), "call", 2),
+                (((4, BOTH), (7, BOTH)), "call", 1), (((6, BOTH), (3, BOTH)), "call", 1)]
+    out = []
+    for a, b in itertools.permutations(_e1.DRAFTS, 2):
+        out.append((((a, ACC), (b, REJ)), "call", 2))
+        out.append((((a, BOTH), (b, BOTH)), "call", 1))
+    out += [(((4, ACC), (7, ACC)), "call", 2), (((6, REJ), (3, REJ)), "call", 2),
+            (((4, ACC), (6, REJ), (7, ACC)), "call", 1), (((7, ACC), (4, REJ)), "line", 1)]
+    return out
+
+
+def t_bodies(threads_):
+    def mk(d, which):
+        cls = _e1.CLS[d]
+
+        def body():
+            return tuple(t_outcome(cls, copy.deepcopy(T_CANDS[d][i])) for i in which)
+        return body
+    return [mk(d, which) for d, which in threads_]
+
+
+SCHED = "SCHEDULER: prefix not replayable"
+
+
+def t_outcome(cls, c):
+    """outcome(), but an exception thrown by the baton scheduler itself (its trace function refuses a schedule
+    prefix that the run no longer follows) is told apart from an exception of the code under test."""
+    try:
+        cls.check_schema(c)
+        return True
+    except exceptions.SchemaError:
+        return False
+    except Exception as e:
+        tb = e.__traceback__
+        while tb.tb_next is not None:
+            tb = tb.tb_next
+        if os.path.abspath(tb.tb_frame.f_code.co_filename) == os.path.abspath(threads.__file__):
+            return SCHED
+        return "EXC " + type(e).__name__
+
+
+def t_expected(ctx, d, which=BOTH):
+    M = meta(d, ctx.repo)
+    return tuple(not spec.errs(d, M, T_CANDS[d][i]) for i in which)
+
+
+def t_check(ctx, threads_):
+    exp = [t_expected(ctx, d, which) for d, which in threads_]
+
+    def check(results):
+        for i, (d, which) in enumerate(threads_):
+            if results[i] != exp[i]:
+                return {"thread": i, "draft": d, "candidates": [T_CANDS[d][j] for j in which],
+                        "got": results[i], "expected": exp[i]}
+        return None
+    return check
+
+
+def t_warm(threads_):
+    """Run the bodies sequentially twice, so that whatever the first call of a kind builds lazily exists before the
+    root run and before every explored schedule alike (cold start is C18's part D)."""
+    for _ in range(2):
+        for b in t_bodies(threads_):
+            b()
+
+
+def t_name(threads_):
+    return "+".join("d%d:%s" % (d, "".join("ar"[i] for i in which)) for d, which in threads_)
+
+
+# ---- plan / run ---------------------------------------------------------------------------------------
 def plan(ctx):
+    global _base_snap
     cands = candidates(ctx)
-    n = 16 if ctx.tier == "quick" else 48
+    n = 32 if ctx.tier == "quick" else 96
     units = [(d, i, n) for d in _e1.DRAFTS for i in range(n)]
     units += [("meta", 0, 1)]
+    probe_table(ctx)
+    _base_snap = reg_snapshot()
+    nh = sum(len(OPS) ** k for k in range(1, hist_depth(ctx) + 1))
+    hs = 48 if ctx.tier == "quick" else 256
+    units += [("hist", i, hs) for i in range(hs)]
+    sizes = {}
+    for ci, (thr, gran, bound) in enumerate(t_configs(ctx.tier)):
+        for d, which in thr:
+            e = t_expected(ctx, d)
+            assert e == (True, False), (d, e)
+        t_warm(thr)
+        npts = None
+        for _ in range(5):          # the scheduler's wall-clock stall monitor can misfire on a busy machine
+            sc = threads.Sched(t_bodies(thr), [], PKG, gran)
+            try:
+                _, pts = sc.run()
+            except threads.Deadlock:
+                continue
+            if not sc.stalls:
+                npts = len(pts)
+                break
+        if npts is None:
+            raise RuntimeError("C11 harness: no undisturbed root run of the thread bodies in 5 attempts")
+        sizes["thread_points_%s_%s_bound%d" % (t_name(thr), gran, bound)] = npts
+        chunk = max(1, npts // (32 if bound >= 2 else 4))
+        for lo in range(0, npts, chunk):
+            units.append(("thr", ci, lo, lo + chunk if lo + chunk < npts else 10 ** 9))
+    fam = {}
+    for f, _, _, _ in cands:
+        fam[f] = fam.get(f, 0) + 1
     return {
         "units": units,
-        "rule": ("every value of W, every {keyword: w} for 50 keyword names (all drafts' keywords, annotations, "
+        "rule": ("part E: every value of W, every {keyword: w} for 50 keyword names (all drafts' keywords, annotations, "
                  "unknown names) x W, sibling products for exclusive*/required/dependencies/type/items, each placed "
-                 "at every subschema position of the wrap table; de-duplicated by JSON text; x 4 drafts; plus each "
-                 "bundled metaschema against every class; check_schema outcome vs the reference evaluator applied "
-                 "to the draft's metaschema file; non-trivial = candidates the reference rejects or accepts with at "
-                 "least one known keyword present (all candidates are distinct)"),
-        "bounds": {"candidates_per_draft": len(cands), "W": len(W), "keywords": len(KW),
-                   "positions": len(WRAP if ctx.thorough else WRAP[:16]), "tier": ctx.tier},
+                 "at every subschema position of the wrap table [base]; the same for the non-finite numbers "
+                 "json.loads produces (inf, -inf, nan: bare, in arrays, in objects, in nested subschemas) "
+                 "[nonfinite]; every ordered tuple of length 2-3 (4 over a reduced alphabet in thorough) over 16 "
+                 "entries (type names, equal-but-differently-written objects: member order, 1 / 1.0; bool-vs-number "
+                 "look-alikes; objects sorting between them) as the value of type, disallow, required, enum, "
+                 "extends, dependencies/a [unions]; type confusions of every valid keyword value of the schema "
+                 "grammar of every draft (string <-> list of characters / [s] / {s: ..}, x <-> [x], int <-> float "
+                 "<-> bool <-> numeral, null <-> 0 / false / 'null', array <-> object, object <-> list of pairs / "
+                 "keys / values, one level inside arrays and objects too) at 4 positions [confusion]; "
+                 "de-duplicated by JSON text; x 4 drafts; plus each bundled metaschema against every class; "
+                 "check_schema outcome vs the reference evaluator applied to the draft's metaschema file (for "
+                 "candidates with non-finite numbers: the same evaluator over the extended reals; where the verdict "
+                 "depends on the meaning of a comparison with NaN only 'nothing but SchemaError escapes' is "
+                 "demanded).  part H: every sequence of <= depth registrations over 8 dialect kinds x 4 bundled "
+                 "drafts (create/extend with a version or the validates decorator: same id + one-keyword table, "
+                 "same id + stricter content, same id + content replaced on the extended class, same id + type "
+                 "checker redefining integer/number resp. string/object, same id + empty table, other id, plain "
+                 "copy), each replayed on the restored registries, a mini check after every non-final step and "
+                 "the full probe differential for all four draft classes after the last; registries restored "
+                 "and the restoration verified after every history.  part T: check_schema of two (three) "
+                 "different draft classes in real threads, one accepted and one rejected candidate each, every "
+                 "schedule with <= bound preemptions at call granularity.  non-trivial = candidates the reference "
+                 "decides (all distinct) + probe evaluations in registry states + schedules with a preemption"),
+        "bounds": dict(sizes, candidates_per_draft=len(cands), W=len(W), keywords=len(KW),
+                       positions=len(WRAP if ctx.thorough else WRAP[:16]), tier=ctx.tier,
+                       history_depth=hist_depth(ctx), history_ops=len(OPS), histories=nh, probes=len(_probes),
+                       thread_configs=["%s %s bound=%d" % (t_name(c[0]), c[1], c[2]) for c in t_configs(ctx.tier)],
+                       **{"family_" + k: v for k, v in fam.items()}),
         "assumptions": ["reference evaluator mc/ref/spec.py (handles $ref '#' and '#/definitions/...', draft 3 "
-                        "extends/type unions); format is inert as check_schema passes no format checker"],
+                        "extends/type unions); format is inert as check_schema passes no format checker",
+                        "inf / -inf are ordered above / below every finite number and equal to themselves; a "
+                        "non-finite number is a number and not an integer (mc/ref/nonfinite.py)",
+                        "part H: expected verdicts of the draft classes do not depend on the registry state (the "
+                        "property ties them to the bundled metaschema); dialect classes themselves are not judged",
+                        "part T: preemption only at Python call boundaries inside the package"],
     }
 
 
@@ -137,8 +666,31 @@ def outcome(cls, c):
         return "EXC " + type(e).__name__
 
 
+def reference(d, M, c):
+    """True / False, or 'no-crash' when only the exception clause can be demanded; raises Unsupported."""
+    if nonfinite.contains_nonfinite(c):
+        try:
+            return nonfinite.verdict(d, M, c)
+        except nonfinite.Ambiguous:
+            return "no-crash"
+    return not spec.errs(d, M, c)
+
+
+def disagreement(d, M, cls, c):
+    """None, or (kind, got, expected)."""
+    exp = reference(d, M, c)
+    got = outcome(cls, c)
+    if exp == "no-crash":
+        if isinstance(got, str):
+            return ("crash-" + got[4:], got, exp)
+        return None
+    if got != exp:
+        return (kind_of(got, exp), got, exp)
+    return None
+
+
 def run_unit(unit, ctx):
-    d, shard, n = unit
+    d, shard, n = unit[0], unit[1], unit[2]
     viol, samples, outcomes = [], [], {}
     ev = nt = 0
     if d == "meta":
@@ -163,30 +715,134 @@ def run_unit(unit, ctx):
                 viol.append({"signature": "C11|class-metaschema-differs-from-file|d%d" % dm, "size": 1,
                              "case": {"draft": dm, "candidate": "META_SCHEMA attribute"}, "detail": {}})
         return {"evaluations": ev, "nontrivial": nt, "violations": viol, "samples": [], "outcomes": {}, "counters": {}}
+    if d == "hist":
+        return run_hist_unit(unit, ctx)
+    if d == "thr":
+        return run_thr_unit(unit, ctx)
     cands = candidates(ctx)
     M = meta(d, ctx.repo)
     cls = _e1.CLS[d]
     for i in range(shard, len(cands), n):
-        c = cands[i]
+        fam, wname, c, inner = cands[i]
         try:
-            exp = not spec.errs(d, M, c)
+            exp = reference(d, M, c)
         except spec.Unsupported:
             outcomes["outside-oracle"] = outcomes.get("outside-oracle", 0) + 1
             continue
         ev += 1
         got = outcome(cls, c)
-        key = "accepted" if exp else "rejected"
+        key = fam + ":" + ("nan-ambiguous:only-no-crash-demanded" if exp == "no-crash" else
+                           "accepted" if exp else "rejected")
         outcomes[key] = outcomes.get(key, 0) + 1
         nt += 1
-        if got != exp:
-            kind = "crash-" + got[4:] if isinstance(got, str) else ("accepts-invalid" if got else "rejects-valid")
-            sig = "C11|%s|%s" % (kind, shape(c))
-            viol.append({"signature": sig, "size": len(json.dumps(c)),
-                         "case": {"draft": d, "candidate": c}, "detail": {"check_schema": got, "reference": exp}})
+        bad = None
+        if exp == "no-crash":
+            if isinstance(got, str):
+                bad = ("crash-" + got[4:], got, exp)
+        elif got != exp:
+            bad = (kind_of(got, exp), got, exp)
+        if bad:
+            rc = c
+            if inner is not None:
+                # shrink: the same candidate without the position wrapper, if that disagrees in the same way
+                try:
+                    b2 = disagreement(d, M, cls, inner)
+                except spec.Unsupported:
+                    b2 = None
+                if b2 and b2[0] == bad[0]:
+                    rc, bad = inner, b2
+            sig = "C11|%s|%s" % (bad[0], shape(rc))
+            viol.append({"signature": sig, "size": len(json.dumps(rc)),
+                         "case": {"draft": d, "candidate": rc},
+                         "detail": {"check_schema": bad[1], "reference": bad[2], "family": fam,
+                                    "found_at_position": wname}})
         if len(samples) < 2 and i % 997 == 5:
-            samples.append({"draft": d, "candidate": c, "accepted": exp})
+            samples.append({"draft": d, "family": fam, "candidate": c, "reference": exp})
     return {"evaluations": ev, "nontrivial": nt, "violations": viol, "samples": samples, "outcomes": outcomes,
             "counters": {}}
+
+
+def run_hist_unit(unit, ctx):
+    _, shard, n = unit
+    viol, samples, outcomes = [], [], {}
+    ev = states = 0
+    probe_table(ctx)
+    if not reg_same(_base_snap):
+        raise RuntimeError("C11 harness: registries differ from the initial snapshot at the start of a unit")
+    for i, h in enumerate(histories(ctx)):
+        if i % n != shard:
+            continue
+        ops = [OPS[j] for j in h]
+        e, bad, early = run_history(ctx, ops)
+        ev += e
+        states += len(ops)
+        key = "history-depth-%d:%s" % (len(ops), "DISAGREE" if bad else "agree")
+        outcomes[key] = outcomes.get(key, 0) + 1
+        outcomes["registries-restored-and-verified"] = outcomes.get("registries-restored-and-verified", 0) + 1
+        if bad:
+            viol += hist_violation(ctx, ops, bad)
+        if len(samples) < 1 and i % 211 == 7:
+            samples.append({"part": "H", "history": [list(o) for o in ops], "probes_per_class": len(_probes)})
+    return {"evaluations": ev, "nontrivial": ev, "violations": viol, "samples": samples, "outcomes": outcomes,
+            "counters": {"registry_states_checked": states}}
+
+
+def run_thr_unit(unit, ctx):
+    _, ci, lo, hi = unit
+    thr, gran, bound = t_configs(ctx.tier)[ci]
+    viol, samples = [], []
+    t_warm(thr)
+    check = t_check(ctx, thr)
+    try:
+        r = threads.explore(lambda: t_bodies(thr), check, PKG, gran, bound, (lo, hi))
+    except threads.Deadlock:
+        # no thread finished within the scheduler's wall-clock limit: an overloaded machine, or code that blocks
+        # while another thread holds the baton -- an artefact of serialising the threads, not a verdict
+        return {"evaluations": 0, "nontrivial": 0, "samples": [], "violations": [], "counters": {},
+                "outcomes": {"threads:unit-abandoned-after-scheduler-timeout": 1}}
+    extra = {}
+    for choices, bad in r["problems"]:
+        if "got" not in bad:
+            # the scheduler's wall-clock stall monitor gave up on the schedule ('deadlock'): check_schema takes no
+            # locks; waits and deadlocks are C18's business, and on a busy machine the monitor misfires
+            extra["threads:scheduler-stall-or-deadlock(not judged here)"] = extra.get(
+                "threads:scheduler-stall-or-deadlock(not judged here)", 0) + 1
+            continue
+        got = bad["got"]
+        # a problem counts only if the identical schedule shows it again, twice (DESIGN 3.3: an observation that
+        # does not repeat under the same schedule is harness / interpreter nondeterminism, never a VIOLATION)
+        if isinstance(got, tuple) and SCHED in got:
+            extra["threads:run-left-its-schedule-prefix(dropped)"] = extra.get(
+                "threads:run-left-its-schedule-prefix(dropped)", 0) + 1
+            continue
+        again = []
+        for _ in range(2):
+            try:
+                res, _pts = threads.Sched(t_bodies(thr), choices, PKG, gran).run()
+                again.append(check(res))
+            except threads.Deadlock:
+                again.append(None)
+        if any(a is None or a["got"] != got or a["thread"] != bad["thread"] for a in again):
+            extra["threads:problem-not-repeated-under-the-same-schedule(dropped)"] = extra.get(
+                "threads:problem-not-repeated-under-the-same-schedule(dropped)", 0) + 1
+            continue
+        what = "crash-" + "+".join(sorted({g[4:] for g in got if isinstance(g, str)})) if (
+            isinstance(got, tuple) and any(isinstance(g, str) for g in got)) else (
+            "wrong-verdict" if isinstance(got, tuple) and got[:1] != ("EXC",) else "thread-died")
+        viol.append({"signature": "C11|threads-check_schema|%s|%s" % (gran, what), "size": len(choices),
+                     "case": {"part": "T", "threads": [[d, list(w)] for d, w in thr], "granularity": gran,
+                              "choices": choices},
+                     "detail": bad})
+    outcomes = {"threads:preemptions=%d" % k: v for k, v in r["by_preemptions"].items()}
+    outcomes.update(extra)
+    if r.get("diverged"):
+        outcomes["threads:replay-diverged-from-its-prefix(left unjudged by the scheduler)"] = r["diverged"]
+    nt = sum(v for k, v in r["by_preemptions"].items() if k > 0)
+    if lo == 0:
+        samples.append({"part": "T", "threads": t_name(thr), "granularity": gran, "bound": bound,
+                        "scheduling_points_in_deviation_free_run": r["points_root"]})
+    return {"evaluations": r["schedules"], "nontrivial": nt, "violations": viol, "samples": samples,
+            "outcomes": outcomes, "counters": {"thread_schedules": r["schedules"], "thread_steps": r["steps"]}}
 
 
 def shape(c, depth=0):
@@ -195,13 +851,40 @@ def shape(c, depth=0):
         return "{" + ",".join("%s:%s" % (k, shape(v, depth + 1)) for k, v in sorted(c.items())) + "}"
     if isinstance(c, list):
         return "[" + ",".join(sorted({shape(e, depth + 1) for e in c})) + "]"
+    if nonfinite.nonfinite(c):
+        return "nan" if c != c else "inf"
     return spec.jtype(c) if not isinstance(c, (dict,)) else "object"
 
 
 def replay(case, ctx):
+    part = case.get("part")
+    if part == "T":
+        thr = tuple((d, tuple(w)) for d, w in case["threads"])
+        t_warm(thr)
+        sc = threads.Sched(t_bodies(thr), case["choices"], PKG, case["granularity"])
+        try:
+            results, points = sc.run()
+        except threads.Deadlock as e:
+            return {"reproduced": False, "scheduler": str(e)}
+        bad = t_check(ctx, thr)(results)
+        return {"reproduced": bad is not None, "problem": bad}
     d, c = case["draft"], case["candidate"]
+    if part == "H":
+        global _base_snap
+        probe_table(ctx)
+        if _base_snap is None:
+            _base_snap = reg_snapshot()
+        if isinstance(c, str) and c.startswith("metaschema-of-draft-"):
+            what = "own-metaschema"
+        else:
+            P = probe_table(ctx)
+            what = [json.dumps(p) for p in P].index(json.dumps(c))
+        _, bad, _ = run_history(ctx, [tuple(o) for o in case["history"]], only=(d, what))
+        return {"reproduced": bool(bad), "mismatches": [list(b) for b in bad]}
     if isinstance(c, str) and c.startswith("metaschema-of-draft-"):
         c = meta(int(c.rsplit("-", 1)[1]), ctx.repo)
-    exp = not spec.errs(d, meta(d, ctx.repo), c)
-    got = outcome(_e1.CLS[d], c)
-    return {"reproduced": got != exp, "check_schema": got, "reference": exp}
+        exp = not spec.errs(d, meta(d, ctx.repo), c)
+        got = outcome(_e1.CLS[d], c)
+        return {"reproduced": got != exp, "check_schema": got, "reference": exp}
+    bad = disagreement(d, meta(d, ctx.repo), _e1.CLS[d], c)
+    return {"reproduced": bad is not None, "disagreement": list(bad) if bad else None}
